@@ -15,16 +15,21 @@ import (
 // ------------------------------------------------------------ scripted types
 // Marshal behaviour is scripted by the value (Script field); unmarshal behaviour by the data ("<script>:<payload>").
 const (
-	sRight    = iota // right data / value
-	sWrong           // wrong data / value
-	sErr             // error, no data
-	sErrData         // error together with data
-	sPanic           // panic
-	sEmptyNil        // no error, nil data (marshal) / leaves the value empty (unmarshal); the expected data is "" / the zero value
+	sRight        = iota // right data / value
+	sWrong               // wrong data / value
+	sErr                 // error, no data
+	sErrData             // error together with data
+	sPanic               // panic
+	sEmptyNil            // no error, nil data (marshal) / leaves the value empty (unmarshal); the expected data is "" / the zero value
+	sPanicRuntime        // panics with a runtime.Error (index out of range)
+	sWrongSimilar        // wrong data that is "equivalent" under a looser comparison (JSON members reordered and re-spaced; same text in another case)
 	nScripts
 )
 
-var scriptNames = [...]string{"right", "wrong", "error", "error+data", "panic", "empty"}
+var scriptNames = [...]string{"right", "wrong", "error", "error+data", "panic", "empty", "runtimepanic", "wrongsimilar"}
+
+// the payload is JSON-shaped so that a JSON-aware comparison could be fooled
+const similarPayload = `{"b":2, "a":1}`
 
 func marshalScript(script int, payload string) ([]byte, error) {
 	switch script {
@@ -38,6 +43,11 @@ func marshalScript(script int, payload string) ([]byte, error) {
 		return []byte(payload), errors.New("boom: scripted failure")
 	case sEmptyNil:
 		return nil, nil
+	case sPanicRuntime:
+		var arr []int
+		_ = arr[script] // runtime error: index out of range
+	case sWrongSimilar:
+		return []byte(similarPayload), nil
 	}
 	panic("kaboom: scripted panic")
 }
@@ -59,6 +69,11 @@ func unmarshalScript(data []byte) (payload string, set bool, err error) {
 		return s[i+1:], true, errors.New("boom: scripted failure")
 	case "empty":
 		return "", false, nil
+	case "runtimepanic":
+		var arr []int
+		_ = arr[len(s)] // runtime error: index out of range
+	case "wrongsimilar":
+		return strings.ToUpper(s[i+1:]), true, nil
 	}
 	panic("kaboom: scripted panic")
 }
@@ -105,6 +120,49 @@ func (v *P) UnmarshalJSON(d []byte) error   { return v.set(d) }
 
 // N lacks every interface
 type N struct{ Payload string }
+
+// T implements only the text interfaces, J only the JSON ones (a type may implement a subset)
+type T struct {
+	Script  int
+	Payload string
+}
+
+func (v T) MarshalText() ([]byte, error) { return marshalScript(v.Script, v.Payload) }
+func (v *T) UnmarshalText(d []byte) error {
+	p, ok, err := unmarshalScript(d)
+	if ok {
+		v.Payload = p
+	}
+	return err
+}
+
+type J struct {
+	Script  int
+	Payload string
+}
+
+func (v J) MarshalJSON() ([]byte, error) { return marshalScript(v.Script, v.Payload) }
+func (v *J) UnmarshalJSON(d []byte) error {
+	p, ok, err := unmarshalScript(d)
+	if ok {
+		v.Payload = p
+	}
+	return err
+}
+
+func lacks(typ, helper string) bool {
+	switch typ {
+	case "N":
+		return true
+	case "P":
+		return strings.HasPrefix(helper, "Marshal")
+	case "T":
+		return !strings.HasSuffix(helper, "Text")
+	case "J":
+		return !strings.HasSuffix(helper, "JSON")
+	}
+	return false
+}
 
 // ------------------------------------------------------------ recording TestingT
 type recorder struct {
@@ -174,6 +232,8 @@ func scriptErrText(script int) (text string, isPanic bool) {
 		return "boom: scripted failure", false
 	case sPanic:
 		return "panic: kaboom: scripted panic", true // the helpers turn a panic into an error whose text starts like this
+	case sPanicRuntime:
+		return "panic: runtime error: scripted", true
 	}
 	return "", false
 }
@@ -192,18 +252,21 @@ func buildPred(p int, script int) test.AssertErrorFunc {
 		if script == sPanic {
 			return test.ErrorHasPrefix("panic: kaboom")
 		}
+		if script == sPanicRuntime {
+			return test.ErrorHasPrefix("panic: runtime error")
+		}
 		return test.ErrorHasPrefix("boom:")
 	case pPrefixNe:
 		return test.ErrorHasPrefix("zzz")
 	case pSuffixEq:
-		if script == sPanic {
+		if script == sPanic || script == sPanicRuntime {
 			return test.ErrorHasSuffix("\n") // the stack trace ends with a newline
 		}
 		return test.ErrorHasSuffix("failure")
 	case pSuffixNe:
 		return test.ErrorHasSuffix("zzz")
 	case pMatch:
-		return test.ErrorMatch(`^(boom|panic): .*scripted`)
+		return test.ErrorMatch(`^(boom|panic): .*(scripted|runtime error)`)
 	case pNoMatch:
 		return test.ErrorMatch(`^never matches$`)
 	case pErrorSubstring:
@@ -234,7 +297,7 @@ func predHolds(p int, script int) bool {
 	case pPrefixEq, pSuffixEq:
 		return true
 	case pMatch:
-		return regexp.MustCompile(`^(boom|panic): .*scripted`).MatchString(txt)
+		return regexp.MustCompile(`^(boom|panic): .*(scripted|runtime error)`).MatchString(txt)
 	}
 	panic("harness: predHolds on nil predicate")
 }
@@ -252,7 +315,7 @@ func unmet(c caseSpec, marshalDir bool) []string {
 		return []string{"after_hook_fails"}
 	}
 	errTxt, _ := scriptErrText(c.Script)
-	hasResult := c.Script == sRight || c.Script == sWrong || c.Script == sErrData
+	hasResult := c.Script == sRight || c.Script == sWrong || c.Script == sErrData || c.Script == sWrongSimilar
 	if c.Script == sEmptyNil { // the result is empty: it equals the expectation exactly when the case expects the empty data / zero value
 		if c.Pred != pNil {
 			return []string{"missing_error"}
@@ -284,8 +347,9 @@ func unmet(c caseSpec, marshalDir bool) []string {
 
 // ------------------------------------------------------------ running the real helpers
 type listArg struct {
-	Helper string     `json:"helper"` // MarshalText UnmarshalText MarshalBinary ...
-	Type   string     `json:"type"`   // V, *P, N
+	Prev   string     `json:"previous_helper_call,omitempty"` // history of depth 2: this helper is run first on the same type (one trivial case)
+	Helper string     `json:"helper"`                         // MarshalText UnmarshalText MarshalBinary ...
+	Type   string     `json:"type"`                           // V, *P, N
 	Custom bool       `json:"custom_type_helper"`
 	Cases  []caseSpec `json:"cases"`
 }
@@ -312,7 +376,7 @@ func constraintOf(c int) test.Constraint {
 	return 0
 }
 
-const rightPayload = "payload"
+const rightPayload = `{"a":1,"b":2}` // JSON-shaped on purpose (see similarPayload)
 
 // expected data text of a case for marshal / input data for unmarshal
 func marshalExpected(c caseSpec) string {
@@ -411,9 +475,31 @@ func runHelper[T any](rec *recorder, a listArg, mkValue func(c caseSpec, marshal
 func probe(a listArg) (kind, detail string) {
 	rec := &recorder{}
 	marshalDir := strings.HasPrefix(a.Helper, "Marshal")
+	if a.Prev != "" { // the previous helper call on the same type; whatever it reports or panics is not judged
+		func() {
+			defer func() { _ = recover() }()
+			b := a
+			b.Prev, b.Helper, b.Cases = "", a.Prev, []caseSpec{{0, hNil, hNil, pNil, sRight, false}}
+			probe(b)
+		}()
+	}
 	escaped := func() (p any) {
 		defer func() { p = recover() }()
 		switch a.Type {
+		case "T":
+			runHelper[T](rec, a, func(c caseSpec, m bool) T {
+				if m {
+					return T{Script: c.Script, Payload: rightPayload}
+				}
+				return T{Payload: unmarshalExpectedPayload(c)}
+			}, nil)
+		case "J":
+			runHelper[J](rec, a, func(c caseSpec, m bool) J {
+				if m {
+					return J{Script: c.Script, Payload: rightPayload}
+				}
+				return J{Payload: unmarshalExpectedPayload(c)}
+			}, nil)
 		case "V":
 			var th test.TypeHelper[V]
 			if a.Custom {
@@ -474,7 +560,7 @@ func probe(a listArg) (kind, detail string) {
 			}
 		}
 	}
-	if a.Type == "N" || a.Type == "P" && marshalDir { // P as a value has its Marshal* methods on the pointer only: it lacks the marshaler interfaces
+	if lacks(a.Type, a.Helper) { // N has no methods; P as a value has its Marshal* methods on the pointer only; T and J implement one family only
 		if len(a.Cases) == 0 {
 			return "", ""
 		}
@@ -607,5 +693,21 @@ func main() {
 			})
 		})
 		r.Sample("list", listArg{Helper: "MarshalJSON", Type: "*P", Cases: []caseSpec{red[12], red[0], red[2]}})
+		r.Phase("serial: all histories of two helper calls on one type (6 x 6 helpers x types {T text-only, J JSON-only, V, *P, N}) x 6 judged cases", "complete for depth 2", func() {
+			judged := []caseSpec{red[0], red[2], red[4], red[5], red[8], red[1]}
+			r.Serial(func(w *mc.W) {
+				for _, ty := range []string{"T", "J", "V", "*P", "N"} {
+					for _, h1 := range helpers {
+						for _, h2 := range helpers {
+							for _, c := range judged {
+								w.Point()
+								w.NonTrivial()
+								p.Do(w, listArg{Prev: h1, Helper: h2, Type: ty, Cases: []caseSpec{c}})
+							}
+						}
+					}
+				}
+			})
+		})
 	})
 }
